@@ -25,6 +25,7 @@ class RefCloud:
         self.session_id = "sess-" + hashlib.md5((account + "s").encode()).hexdigest()[:16]
         self.logged_in = False
         self.requests: list[dict] = []
+        self.slow_timeouts = True
         self.problems: list[str] = []
         self.observations: list[str] = []
         self.counts: dict[str, int] = {}
@@ -66,6 +67,15 @@ class RefCloud:
             bad("unknown endpoint")
 
     # --- transport handler ---------------------------------------------
+    async def async_handler(self, request: httpx.Request) -> httpx.Response:
+        """Like handler(), but a timeout really takes the client's timeout (10 s of virtual time) to happen."""
+        import asyncio
+        try:
+            return self.handler(request)
+        except httpx.ReadTimeout:
+            await asyncio.sleep(10.0)
+            raise
+
     def handler(self, request: httpx.Request) -> httpx.Response:
         url = urlparse(str(request.url))
         path = url.path
@@ -110,5 +120,5 @@ class RefCloud:
 
     def client_factory(self):
         def make(*args, **kwargs):
-            return httpx.AsyncClient(transport=httpx.MockTransport(self.handler))
+            return httpx.AsyncClient(transport=httpx.MockTransport(self.async_handler if self.slow_timeouts else self.handler))
         return make
